@@ -49,6 +49,10 @@ def unshared(x):
     return True
 
 
+def is_record(x):
+    return False        # natively every dict is just a dict: the symbolic case split does not exist
+
+
 def exists_split(f, s):
     return any(f(s[:k], s[k:]) for k in range(len(s) + 1))
 
@@ -161,7 +165,7 @@ def generic(rec):
     ct = rec['contract']
     glob = dict(vars(spec))
     glob.update(implies=implies, forall=forall, exists=exists, typeis=typeis,
-                exists_split=exists_split, unshared=unshared)
+                exists_split=exists_split, unshared=unshared, is_record=is_record)
     # the concretised input must satisfy the precondition, else the model does not transfer
     for lab, src in ct['requires']:
         try:
